@@ -53,10 +53,11 @@ class ForLoop:
         self.generator = generator
         i = tree.indices[0]
         e = i.expression
-        start = e.start.value
-        step = e.step.value
+        start = self.generator.get_integer(e.start)
+        step = self.generator.get_integer(e.step)
         stop = self.generator.get_integer(e.stop)
-        self.values = np.arange(start, stop + step, step, dtype=int)
+        # N.B. The last value is the last one that is not beyond stop
+        self.values = np.arange(start, stop + np.sign(step), step, dtype=int)
         self.index_variable = _new_mx(i.name)
         self.name = i.name
         self.indexed_symbols = OrderedDict()
